@@ -50,51 +50,72 @@ theorem stripTrailing_eq_spec (r : List Nat) : stripTrailing r = DirSpec.dropTra
 /-! ### forward machine vs backward scan -/
 
 /-- the builder after the slots `Q` (NEAREST FIRST, i.e. reversed on-disk order) starting from `b0` -/
-def runB (b0 : LongNameBuilder) (Q : List (List Nat)) : LongNameBuilder :=
-  Q.foldr (fun s b => process true b s) b0
+def runB (alloc : Bool) (b0 : LongNameBuilder) (Q : List (List Nat)) : LongNameBuilder :=
+  Q.foldr (fun s b => process alloc b s) b0
 
-theorem WF_runB (b0 : LongNameBuilder) (h : DeadV b0) : ∀ Q, WF true (runB b0 Q) := by
+theorem WF_runB (alloc : Bool) (b0 : LongNameBuilder) (h : Dead alloc b0) : ∀ Q, WF alloc (runB alloc b0 Q) := by
   intro Q
   induction Q with
-  | nil => exact DeadV_WF b0 h
-  | cons s Q ih => exact WF_process true _ s ih
+  | nil => exact Dead_WF alloc b0 h
+  | cons s Q ih => exact WF_process alloc _ s ih
+
+/-- the 255-unit cap of `into_buf` -/
+def capName (t : List Nat) : List Nat := if t.length > 255 then [] else t
 
 def outName : Option (List Nat) → List Nat
   | none => []
-  | some r => stripTrailing r
+  | some r => capName (stripTrailing r)
 
-theorem finish_complete (b : LongNameBuilder) (n : List Nat) (hi : b.index = 1)
-    (hc : b.chksum = lfnChecksum n) : finish true b n = stripTrailing b.buf.units := by
-  have hle := stripLen_le b.buf.units
-  have v : validateChksum true b n = b := by simp [validateChksum, hi, hc]
-  have w : intoBuf true b = ⟨resize b.buf.units (stripLen b.buf.units), stripLen b.buf.units⟩ := by
-    simp [intoBuf, hi, truncate, LfnBuf.setLen]
-  rw [finish, v, w]
-  simp only [LfnBuf.asUnits, resize_of_le _ _ hle, take_stripLen]
-  exact List.take_of_length_le (Nat.le_refl _)
+theorem truncate_asUnits (alloc : Bool) (b : LongNameBuilder) (hw : WF alloc b) :
+    (truncate alloc b).buf.asUnits = stripTrailing b.buf.asUnits := by
+  obtain ⟨_, _, t3⟩ := truncate_ok alloc b hw
+  have hll := WF_len_le alloc b hw
+  rw [← take_stripLen]
+  simp only [truncate, LfnBuf.setLen]
+  generalize stripLen b.buf.asUnits = m at t3 ⊢
+  have hm : m ≤ b.buf.units.length := by omega
+  cases alloc
+  · simp [LfnBuf.asUnits, List.take_take, Nat.min_eq_left t3]
+  · simp [LfnBuf.asUnits, resize_of_le _ _ hm, List.take_take, Nat.min_eq_left t3]
+
+/-- a completed run (ordinal 1 reached, checksum of the short name): the live units, stripped, capped -/
+theorem finish_complete (alloc : Bool) (b : LongNameBuilder) (n : List Nat) (hw : WF alloc b) (hi : b.index = 1)
+    (hc : b.chksum = lfnChecksum n) : finish alloc b n = capName (stripTrailing b.buf.asUnits) := by
+  obtain ⟨_, t2, _⟩ := truncate_ok alloc b hw
+  have v : validateChksum alloc b n = b := by simp [validateChksum, hi, hc]
+  have hslen : (stripTrailing b.buf.asUnits).length = stripLen b.buf.asUnits := rfl
+  rw [finish, v]
+  unfold intoBuf capName
+  simp only [hi, if_true, maxNameLen, t2, hslen]
+  by_cases hgt : stripLen b.buf.asUnits > 255
+  · simp [hgt, clear, LfnBuf.clear, new_asUnits]
+  · simp only [hgt, if_false]
+    exact truncate_asUnits alloc b hw
 
 /-- **Main lemma.**  After the long-name slots `Q` (nearest first) and then a tail of ordinals `k-1 … 1`, the name the
-    `Vec` builder hands out is what the backward scan finds when it arrives at `Q` expecting ordinal `k`. -/
-theorem run_spec (n : List Nat) (b0 : LongNameBuilder) (h0 : DeadV b0) :
+    builder (either variant) hands out is what the backward scan finds when it arrives at `Q` expecting ordinal `k`
+    (stripped of trailing padding, dropped if longer than 255). -/
+theorem run_spec (alloc : Bool) (n : List Nat) (b0 : LongNameBuilder) (h0 : Dead alloc b0) :
     ∀ Q k T, TailOk (lfnChecksum n) T (k - 1) → 1 ≤ k →
-      finish true (T.foldl (process true) (runB b0 Q)) n =
+      finish alloc (T.foldl (process alloc) (runB alloc b0 Q)) n =
         outName (DirSpec.specRun (lfnChecksum n) Q k (tailUnits T)) := by
   intro Q
   induction Q with
   | nil =>
     intro k T ht _
     simp only [DirSpec.specRun, outName, runB, List.foldr_nil]
-    exact finish_DeadV _ n (DeadV_foldl _ T _ _ ht h0)
+    exact finish_Dead alloc _ n (Dead_foldl alloc _ T _ _ ht h0)
   | cons s Q ih =>
     intro k T ht hk
-    have hwf : WF true (runB b0 (s :: Q)) := WF_runB b0 h0 _
-    have hres := process_result (runB b0 Q) s
-    have hrun : runB b0 (s :: Q) = process true (runB b0 Q) s := rfl
+    have hwf : WF alloc (runB alloc b0 (s :: Q)) := WF_runB alloc b0 h0 _
+    have hwfQ : WF alloc (runB alloc b0 Q) := WF_runB alloc b0 h0 _
+    have hres := process_result alloc (runB alloc b0 Q) s
+    have hrun : runB alloc b0 (s :: Q) = process alloc (runB alloc b0 Q) s := rfl
     unfold DirSpec.specRun
     by_cases c1 : k > 20
     · rw [if_pos c1]
       simp only [outName]
-      apply tail_mismatch _ n rfl T (k - 1) _ ht hwf
+      apply tail_mismatch alloc _ n rfl T (k - 1) _ ht hwf
       left
       have := hwf.1
       omega
@@ -102,7 +123,7 @@ theorem run_spec (n : List Nat) (b0 : LongNameBuilder) (h0 : DeadV b0) :
       by_cases c2 : DirSpec.ldirChk s ≠ lfnChecksum n
       · rw [if_pos c2]
         simp only [outName]
-        apply tail_mismatch _ n rfl T (k - 1) _ ht hwf
+        apply tail_mismatch alloc _ n rfl T (k - 1) _ ht hwf
         rw [hrun]
         rcases hres with hd | ⟨_, hc, _⟩
         · left; rw [hd.1]; omega
@@ -114,7 +135,7 @@ theorem run_spec (n : List Nat) (b0 : LongNameBuilder) (h0 : DeadV b0) :
         by_cases c3 : DirSpec.ordNum s ≠ k
         · rw [if_pos c3]
           simp only [outName]
-          apply tail_mismatch _ n rfl T (k - 1) _ ht hwf
+          apply tail_mismatch alloc _ n rfl T (k - 1) _ ht hwf
           rw [hrun]
           left
           rcases hres with hd | ⟨hi, _, _⟩
@@ -130,19 +151,25 @@ theorem run_spec (n : List Nat) (b0 : LongNameBuilder) (h0 : DeadV b0) :
             have c4' := (spec_ordLast s).1 c4
             rw [if_pos c4]
             simp only [outName, spec_ldirName]
-            obtain ⟨b1, hb1, e1, e2, e3, e4⟩ : ∃ b1, runB b0 (s :: Q) = b1 ∧ b1.index = k ∧
+            have hcap := bufCap_eq
+            obtain ⟨b1, hb1, e1, e2, e3, e4⟩ : ∃ b1, runB alloc b0 (s :: Q) = b1 ∧ b1.index = k ∧
                 b1.chksum = lfnChecksum n ∧ b1.buf.len = k * 13 ∧
-                b1.buf.units = setSlice (resize (runB b0 Q).buf.units (k * 13)) (13 * (k - 1)) (units s) := by
+                b1.buf.units = setSlice ((runB alloc b0 Q).buf.setLen alloc (k * 13)).units (13 * (k - 1))
+                  (units s) := by
               refine ⟨_, rfl, ?_⟩
               rw [hrun, process_last _ _ _ a1 c4']
-              simp [LfnBuf.setLen, c3', c2']
-            rw [hb1]
-            have hlen : b1.buf.units.length = b1.buf.len := by
-              rw [e4, e3, setSlice_length _ _ _ (units_length s) (by simp; omega)]; simp
-            obtain ⟨r1, r2, _, r4⟩ := tail_run _ T (k - 1) b1 ht (by omega) e2 hlen (by omega) (by omega)
-            rw [finish_complete _ n r1 r2, r4, e4, setSlice_drop _ _ _ (by simp; omega)]
-            rw [List.drop_of_length_le (by simp; omega)]
-            simp
+              cases alloc <;> simp [LfnBuf.setLen, c3', c2']
+            rw [hb1] at hwf ⊢
+            have hUlen : k * 13 ≤ ((runB alloc b0 Q).buf.setLen alloc (k * 13)).units.length := by
+              have := hwfQ.2.2.2.2
+              cases alloc <;> simp [LfnBuf.setLen] at this ⊢ <;> omega
+            have hlive : b1.buf.asUnits.drop (13 * (k - 1)) = units s := by
+              unfold LfnBuf.asUnits
+              rw [e3, e4, setSlice_take _ _ _ _ (units_length s) (by omega) hUlen,
+                setSlice_drop _ _ _ (by simp; omega), List.drop_of_length_le (by simp; omega)]
+              simp
+            obtain ⟨r1, r2, _, r4⟩ := tail_run alloc _ T (k - 1) b1 ht hwf (by omega) e2
+            rw [finish_complete alloc _ n (WF_foldl alloc T b1 hwf) r1 r2, r4, hlive]
           · -- a continuing slot: hand over to the induction hypothesis with the longer tail
             have c4' : ¬ (order s / 64 % 2 = 1) := fun h => c4 ((spec_ordLast s).2 h)
             rw [if_neg c4]
@@ -155,17 +182,22 @@ theorem run_spec (n : List Nat) (b0 : LongNameBuilder) (h0 : DeadV b0) :
 
 /-! ### the two directory loops -/
 
-/-- the model-side rendering of a specification entry: the implementation's strip-all convention on the run -/
+/-- the model-side rendering of a specification entry: the implementation's strip-all convention on the run, and its
+    255-unit cap on the stripped name -/
 def specToModel (e : DirSpec.SpecEntry) : LfnEntry :=
-  ⟨e.sfn, match e.run with | none => [] | some r => DirSpec.dropTrailingPads r, e.beginIdx, e.endIdx⟩
+  ⟨e.sfn,
+   match e.run with
+   | none => []
+   | some r => if (DirSpec.dropTrailingPads r).length > 255 then [] else DirSpec.dropTrailingPads r,
+   e.beginIdx, e.endIdx⟩
 
 theorem specToModel_mk (s : List Nat) (o : Option (List Nat)) (bg en : Nat) :
     specToModel ⟨s, o, bg, en⟩ = ⟨s, outName o, bg, en⟩ := by
-  cases o <;> simp [specToModel, outName, stripTrailing_eq_spec]
+  cases o <;> simp [specToModel, outName, capName, stripTrailing_eq_spec]
 
-theorem readLoop_spec (sv : Bool) : ∀ (slots : List (List Nat)) (idx : Nat) (pend : List (List Nat))
-    (b0 : LongNameBuilder), DeadV b0 → pend.length ≤ idx →
-    readLoop true sv slots idx (idx - pend.length) (runB b0 pend) =
+theorem readLoop_spec (alloc sv : Bool) : ∀ (slots : List (List Nat)) (idx : Nat) (pend : List (List Nat))
+    (b0 : LongNameBuilder), Dead alloc b0 → pend.length ≤ idx →
+    readLoop alloc sv slots idx (idx - pend.length) (runB alloc b0 pend) =
       (DirSpec.specLoop sv slots idx pend).map specToModel := by
   intro slots
   induction slots with
@@ -174,20 +206,20 @@ theorem readLoop_spec (sv : Bool) : ∀ (slots : List (List Nat)) (idx : Nat) (p
     intro idx pend b0 h0 hp
     unfold readLoop DirSpec.specLoop
     rw [slotClass_spec]
-    have hnew := ih (idx + 1) [] (new true) DeadV_new (Nat.zero_le _)
+    have hnew := ih (idx + 1) [] (new alloc) (Dead_new alloc) (Nat.zero_le _)
     simp only [List.length_nil, Nat.sub_zero, runB, List.foldr_nil] at hnew
-    have hentry : (⟨s, finish true (runB b0 pend) (sfnName s), idx - pend.length, idx + 1⟩ : LfnEntry) =
+    have hentry : (⟨s, finish alloc (runB alloc b0 pend) (sfnName s), idx - pend.length, idx + 1⟩ : LfnEntry) =
         specToModel ⟨s, DirSpec.specRun (lfnChecksum (DirSpec.shortName s)) pend 1 [], idx - pend.length,
           idx + 1⟩ := by
       rw [specToModel_mk, spec_shortName]
-      have := run_spec (sfnName s) b0 h0 pend 1 [] (by simp [TailOk]) (Nat.le_refl 1)
+      have := run_spec alloc (sfnName s) b0 h0 pend 1 [] (by simp [TailOk]) (Nat.le_refl 1)
       simp only [List.foldl_nil, tailUnits] at this
       rw [this]
     by_cases c1 : DirSpec.isEndMark s = true
     · simp [c1]
     · by_cases c2 : DirSpec.isFree s = true
       · simp only [c1, c2, if_true, Bool.false_eq_true, if_false]
-        have := ih (idx + 1) [] (clear true (runB b0 pend)) (DeadV_clear _) (Nat.zero_le _)
+        have := ih (idx + 1) [] (clear alloc (runB alloc b0 pend)) (Dead_clear alloc _) (Nat.zero_le _)
         simpa [runB] using this
       · by_cases c3 : DirSpec.isLong s = true
         · simp only [c1, c2, c3, if_true, Bool.false_eq_true, if_false]
@@ -201,7 +233,7 @@ theorem readLoop_spec (sv : Bool) : ∀ (slots : List (List Nat)) (idx : Nat) (p
             · simp only [Bool.false_and, Bool.false_eq_true, if_false, List.map_cons]
               rw [hentry, hnew]
             · simp only [Bool.true_and, if_true]
-              have := ih (idx + 1) [] (clear true (runB b0 pend)) (DeadV_clear _) (Nat.zero_le _)
+              have := ih (idx + 1) [] (clear alloc (runB alloc b0 pend)) (Dead_clear alloc _) (Nat.zero_le _)
               simpa [runB] using this
           · simp only [c1, c2, c3, c4, Bool.false_eq_true, if_false, Bool.and_false, List.map_cons]
             rw [hentry, hnew]
